@@ -181,6 +181,8 @@ Definition holds (p : pc) : bool :=
   match p with
   | F109 | F110 | F111 | F112 | F114 | F116 | F117 | F118 | F119 | F121 | F122 | F123 | F124 | F125
   | M951 | M954 | SP311 | P152 | P153 | M956 | SQ314 | Q162
+  | K181t | K181 | K181r
+  | L273 | L275 | L276 | L279 | L280 | L280n | L281 | L283
   | U193 | U195 | U196 | U197 | U198 | U200 | U201 | U202 | U204 | U205 | U209 | U210 | U214 | U216
   | E235 | E236 | E237 | E238 | E239 | E241
   | A251 | A252 | A253 | A254 | A256 => true
@@ -208,28 +210,28 @@ Definition wabs (p : pc) : bool :=
 (* `val` is the outcome of the lookup (or put) the ghost epoch t_ep belongs to *)
 Definition tagged (p : pc) : bool :=
   match p with
-  | F114 | F115 | F121 | F122 | F124 | F125 | F126 | M956 | SQ314 | Q162 => true
+  | F114 | F115 | F121 | F122 | F124 | F125 | F126 | M956 | SQ314 | Q162 | K181r => true
   | _ => false
   end.
 (* `val` cannot be None *)
 Definition valdef (p : pc) : bool :=
   match p with
-  | F114 | F115 | F124 | F125 | F126 | M954 | SP311 | P152 | P153 => true
+  | F114 | F115 | F124 | F125 | F126 | M954 | SP311 | P152 | P153 | K181r => true
   | _ => false
   end.
 (* `self` is an object *)
 Definition selfdef (p : pc) : bool :=
   match p with
-  | C1400 | SK317 | SK318 | SK319 | SK320 | SK322 | K171 | K172 | K177 | K178 | K180 | K181
+  | C1400 | SK317 | SK318 | SK319 | SK320 | SK322 | K171 | K172 | K177 | K178 | K180 | K181a | K181t | K181
   | X1070 | X1072 | X1074 | X1078 | X1079 | SE325 | SE326 | SE327 | SE328
-  | E232 | E234 | E235 | E236 | E237 | E238 | E239 | E241 | X1083 => true
+  | E232 | E234 | E235 | E236 | E237 | E238 | E239 | E241 | X1083 | Z683 => true
   | _ => false
   end.
 
 (* between the INSERT and the registration of a new instance: `self` is the new instance, `id` its id *)
 Definition creating (p : pc) : bool :=
   match p with
-  | C1400 | SK317 | SK318 | SK319 | SK320 | SK322 | K171 | K172 | K177 | K178 | K180 | K181 => true
+  | C1400 | SK317 | SK318 | SK319 | SK320 | SK322 | K171 | K172 | K177 | K178 | K180 | K181a | K181t | K181 => true
   | _ => false
   end.
 
@@ -286,6 +288,30 @@ Definition registered (s : state) (i : Z) (o : nat) : Prop :=
   dget (s_strong s) i = Some o \/ dget (s_weak s) i = Some o \/
   exists t, t < s_n s /\ mov_of (s_thr s t) = Some (i, o).
 
+(* ---- the two expireAll *)
+(* the window of CacheFactory.expireAll in which an id may be in both dicts (with the same object) *)
+Definition xwinpc (p : pc) : bool := match p with A252 | A253 | A254 => true | _ => false end.
+(* the first n entries of the strong dict have been copied to the weak dict *)
+Definition copied (strong weak : dict) (n : nat) : Prop :=
+  forall j k o, j < n -> nth_error strong j = Some (k, o) -> dget weak k = Some o.
+(* what the lock holder iterating over a dict knows (expireAll over the strong dict, getAll over the weak one) *)
+Definition iter_ok (strong weak : dict) (sver wver : nat) (th : thread) : Prop :=
+  (t_pc th = A252 -> match t_iter th with
+                     | None => True
+                     | Some (pos, size, ver) => size = List.length strong /\ ver = sver /\ copied strong weak pos
+                     end) /\
+  (t_pc th = A253 -> exists pos size ver o,
+       t_iter th = Some (S pos, size, ver) /\ size = List.length strong /\ ver = sver /\ copied strong weak pos /\
+       nth_error strong pos = Some (t_key th, o) /\ t_val th = Some o) /\
+  (t_pc th = A254 -> copied strong weak (List.length strong)) /\
+  (t_pc th = L279 \/ t_pc th = L280 \/ t_pc th = L280n \/ t_pc th = L281 ->
+       match t_iter th with
+       | None => t_pc th = L279
+       | Some (pos, size, ver) => size = List.length weak /\ ver = wver
+       end) /\
+  (t_pc th = L280 -> t_cobj th <> None) /\
+  (t_pc th = L281 -> t_val th <> None).
+
 (* what a thread inside cull knows *)
 Definition cull_ok (strong weak : dict) (heap : nat -> obj) (th : thread) : Prop :=
   (kabs (t_pc th) = true -> dget strong (t_key th) = None /\ dget weak (t_key th) = None) /\
@@ -302,32 +328,17 @@ Definition cull_ok (strong weak : dict) (heap : nat -> obj) (th : thread) : Prop
      exists o, t_self th = Some o /\ o_key (heap o) = t_id th).
 
 (* ------------------------------------------------------------------ the operation set of the proved theorem *)
-(* program points of get (hit, miss, missing row, first use), create, expire and cull; the two
-   expireAll and the loop of sqlmeta.expireAll are outside *)
-Definition core_pc (p : pc) : bool :=
-  match p with
-  | Idle | SG301 | SG302 | SG303 | SG306 | SG308
-  | F93 | F94 | F99 | F100 | F102 | F104 | F105 | F106 | F107 | F108 | F109 | F110 | F111 | F112
-  | F114 | F115 | F116 | F117 | F118 | F119 | F121 | F122 | F123 | F124 | F125 | F126
-  | M951 | M954 | SP311 | P152 | P153 | M956 | SQ314 | Q162
-  | C1397 | C1400 | SK317 | SK318 | SK319 | SK320 | SK322 | K171 | K172 | K177 | K178 | K180 | K181
-  | U192 | U193 | U195 | U196 | U197 | U198 | U200 | U201 | U202 | U204 | U205 | U209 | U210 | U214 | U216
-  | X1070 | X1072 | X1074 | X1078 | X1079 | SE325 | SE326 | SE327 | SE328
-  | E232 | E234 | E235 | E236 | E237 | E238 | E239 | E241 | X1083 => true
-  | _ => false
-  end.
-Definition core_op (o : op) : bool :=
-  match o with Get _ | Create | Expire _ _ | Drop _ _ => true | XAll | MExAll => false end.
+(* every program point of the model is inside the proved operation set *)
+Definition core_pc (p : pc) : bool := true.
+Definition core_op (o : op) : bool := true.
 
-(* the unlocked write of created() is excluded when it overlaps a get of the same id that has
-   decided "miss" under the lock and not yet put (or has put already: the entry exists) *)
+(* created() (now under the lock) is excluded when the cache already has an entry for the new id: that
+   happens exactly when a get of that id missed between the creator's INSERT and its created() and
+   registered an instance of its own (finding created_overwrites_get_miss) *)
 Definition created_race (s : state) (t : nat) : bool :=
   let i := t_id (s_thr s t) in
   match dget (s_strong s) i, dget (s_weak s) i with
-  | None, None =>
-      negb (forallb (fun t' => Nat.eqb t' t ||
-                                 match absent_key (s_thr s t') with Some k => negb (Z.eqb k i) | None => true end)
-                    (seq 0 (s_n s)))
+  | None, None => false
   | _, _ => true
   end.
 
@@ -338,9 +349,8 @@ Definition guard (s : state) (t : nat) : bool :=
   match t_pc th with
   | Idle => match t_prog th with
             | Drop t' _ :: _ => Nat.eqb t' t       (* the application forgets its own results *)
-            | Expire t' _ :: _ => Nat.ltb t' (s_n s)
-            | o :: _ => core_op o
-            | [] => true
+            | Expire t' _ :: _ => Nat.ltb t' (s_n s)   (* ... expires a result of an existing thread *)
+            | _ => true
             end
   | K181 => negb (created_race s t)
   | _ => true
@@ -361,6 +371,7 @@ Record Inv (s : state) : Prop := {
   inv_w_thr : forall t, t < s_n s -> ref_ok s (t_val (s_thr s t)) /\ ref_ok s (t_self (s_thr s t)) /\
                 forall o i e, In (RObj o i e) (t_slots (s_thr s t)) -> o < s_nextobj s;
   inv_w_cobj : forall t, t < s_n s -> ref_ok s (t_cobj (s_thr s t));
+  inv_w_all : forall t o, t < s_n s -> In o (t_all (s_thr s t)) \/ In o (t_items (s_thr s t)) -> o < s_nextobj s;
   (* I1: entries are well keyed *)
   inv_key_strong : forall k o, dget (s_strong s) k = Some o -> o_key (s_heap s o) = k;
   inv_key_weak : forall k o, dget (s_weak s) k = Some o -> o_key (s_heap s o) = k;
@@ -373,10 +384,12 @@ Record Inv (s : state) : Prop := {
   (* I5: after a miss under the lock nobody has an entry for the id *)
   inv_sabs : forall t, t < s_n s -> sabs (t_pc (s_thr s t)) = true -> dget (s_strong s) (t_id (s_thr s t)) = None;
   inv_wabs : forall t, t < s_n s -> wabs (t_pc (s_thr s t)) = true -> dget (s_weak s) (t_id (s_thr s t)) = None;
-  (* a dict has no duplicate keys; an id is in one dict at most *)
+  (* a dict has no duplicate keys; an id is in one dict at most, except inside expireAll's copying *)
   inv_nodup_strong : NoDup (dkeys (s_strong s));
   inv_nodup_weak : NoDup (dkeys (s_weak s));
-  inv_disj : forall k, dget (s_strong s) k <> None -> dget (s_weak s) k = None;
+  inv_disj : forall k o, dget (s_strong s) k = Some o ->
+               dget (s_weak s) k = None \/
+               (dget (s_weak s) k = Some o /\ exists t, t < s_n s /\ xwinpc (t_pc (s_thr s t)) = true);
   (* locals *)
   inv_valdef : forall t, t < s_n s -> valdef (t_pc (s_thr s t)) = true -> t_val (s_thr s t) <> None;
   inv_valkey : forall t o, t < s_n s -> (valdef (t_pc (s_thr s t)) || tagged (t_pc (s_thr s t))) = true ->
@@ -400,11 +413,12 @@ Record Inv (s : state) : Prop := {
                dget (s_weak s) k <> None /\ forall o, ~ holder s k o (s_epoch s k);
   (* cull: the assertions of the lock holder inside cull (and of a cull called from created) *)
   inv_cull : forall t, t < s_n s -> cull_ok (s_strong s) (s_weak s) (s_heap s) (s_thr s t);
+  inv_iter : forall t, t < s_n s -> iter_ok (s_strong s) (s_weak s) (s_sver s) (s_wver s) (s_thr s t);
   (* no exception other than the documented not-found; the run is inside the model *)
   inv_noexc : forall t x, t < s_n s -> In (RExc x) (t_slots (s_thr s t)) -> x = NotFound;
   inv_unmod : s_unmod s = false;
   (* scope of the partial theorem *)
-  inv_scope : forall t, t < s_n s -> core_pc (t_pc (s_thr s t)) = true /\ t_mex (s_thr s t) = false
+  inv_scope : forall t, t < s_n s -> core_pc (t_pc (s_thr s t)) = true
 }.
 
 (* ------------------------------------------------------------------ what the property asks of every state *)
